@@ -410,6 +410,38 @@ def rule_match_columns(ctx, rep):
                   "override of match_location ignores columns without being the documented line-only tool (DefectDojo)")
 
 
+def rule_candidates_all(ctx, rep):
+    rep.rule(
+        "R-CANDIDATES-ALL",
+        "UtilsMixin.results_for_node offers *every* result of the file to the tool's own match_location and keeps exactly those it "
+        "accepts: the returned elements are drawn from self.results with no other filter (a pre-selection by start line, rule or "
+        "column decides for the tool — DefectDojo matches anywhere in the node's line span, Sonar widens tuples — and silently drops findings)",
+        min_instances=1,
+    )
+    from ..derive import ElemSources
+
+    fn = ctx.prog.func("codemodder.codemods.base_visitor.UtilsMixin.results_for_node")
+    es = ElemSources(ctx, fn)
+    rets = [n.value for n in walk_no_nested(fn.node) if isinstance(n, ast.Return) and n.value is not None]
+    ok = bool(rets)
+    why = "no return"
+    n_src = 0
+    for rv in rets:
+        for leaf, facts in es.sources(rv):
+            n_src += 1
+            is_results = isinstance(leaf, ast.Attribute) and leaf.attr == "results" and isinstance(leaf.value, ast.Name) and leaf.value.id == "self"
+            if not is_results:
+                ok = False
+                why = f"candidates are drawn from `{unparse(leaf)[:60]}` instead of self.results"
+                continue
+            extra = [txt for pol, txt in facts if "match_location(" not in txt and txt not in ("self.results",)]
+            accepts = any(pol and "match_location(" in txt for pol, txt in facts)
+            if extra or not accepts:
+                ok = False
+                why = ("results are additionally filtered by " + ", ".join(f"`{t[:40]}`" for t in extra)) if extra else "results are not filtered by match_location"
+    rep.check("R-CANDIDATES-ALL", fn.qname, fn.loc(), ok and n_src > 0, "all-results-offered", why)
+
+
 def check(ctx, rep):
     rep.explanation = (
         "The registry model gives the 37 remediation codemods and their transformer classes; for each class a role-based facts "
@@ -423,4 +455,5 @@ def check(ctx, rep):
     rule_requested_rules(ctx, rep)
     rule_open_status(ctx, rep)
     rule_match_columns(ctx, rep)
+    rule_candidates_all(ctx, rep)
     rep.not_covered += ["column arithmetic of match_location against each tool's real output", "closed/resolved issue filtering beyond the Sonar status test"]
